@@ -46,6 +46,67 @@ type pathWalker struct {
 	maxSteps     int
 	onSlice      func(w *pathWalker, sl *ssa.Slice)
 	onPhi        func(w *pathWalker, ph *ssa.Phi, incoming ssa.Value)
+	// interprocedural: inline decides which static callees are interpreted in
+	// place (depth-bounded); onInline lets the rule transfer its side tables
+	// from the arguments to the callee's parameters, onReturn from the callee's
+	// results back to the call (results[i] are the returned values).
+	inline    func(callee *ssa.Function) bool
+	onInline  func(parent, child *pathWalker, callee *ssa.Function, args []ssa.Value)
+	onReturn  func(parent, child *pathWalker, call *ssa.Call, results []ssa.Value)
+	onExtract func(w *pathWalker, ex *ssa.Extract)
+	depth     int
+	tuple     map[ssa.Value][]optInt
+	steps     *int
+}
+
+type optInt struct {
+	n  int64
+	ok bool
+}
+
+func (w *pathWalker) inlineCall(call *ssa.Call, callee *ssa.Function) string {
+	child := &pathWalker{
+		env: newEnv(), state: map[string]int64{}, absVal: w.absVal, onCall: w.onCall, onStore: w.onStore,
+		assumeErrNil: w.assumeErrNil, lengths: w.lengths, maxSteps: w.maxSteps, onSlice: w.onSlice, onPhi: w.onPhi,
+		inline: w.inline, onInline: w.onInline, onReturn: w.onReturn, onExtract: w.onExtract, depth: w.depth + 1,
+	}
+	args := call.Call.Args
+	for i, p := range callee.Params {
+		if i < len(args) {
+			if n, ok := w.env.eval(args[i]); ok {
+				child.env.bind(p, n)
+			}
+		}
+	}
+	if w.onInline != nil {
+		w.onInline(w, child, callee, args)
+	}
+	end := child.walk(callee.Blocks[0], nil)
+	w.oob = w.oob || child.oob
+	if end != "return" {
+		w.why = "in " + callee.Name() + ": " + child.why
+		w.last = child.last
+		return end
+	}
+	ret := child.last.(*ssa.Return)
+	var rs []optInt
+	for _, r := range ret.Results {
+		n, ok := child.env.eval(r)
+		rs = append(rs, optInt{n, ok})
+	}
+	if len(rs) == 1 && rs[0].ok {
+		w.env.bind(call, rs[0].n)
+	}
+	if len(rs) > 1 {
+		if w.tuple == nil {
+			w.tuple = map[ssa.Value][]optInt{}
+		}
+		w.tuple[call] = rs
+	}
+	if w.onReturn != nil {
+		w.onReturn(w, child, call, ret.Results)
+	}
+	return "return"
 }
 
 // walk follows the path from block b (entered from pred, may be nil). It
@@ -130,6 +191,12 @@ func (w *pathWalker) walk(b, pred *ssa.BasicBlock) string {
 						w.events = append(w.events, t)
 					}
 				}
+			case *ssa.MakeSlice:
+				if w.lengths {
+					if n, ok := w.env.eval(x.Len); ok {
+						w.env.bind(x, n)
+					}
+				}
 			case *ssa.Slice:
 				// length abstraction: a slice value is bound to its length
 				if w.lengths {
@@ -159,9 +226,33 @@ func (w *pathWalker) walk(b, pred *ssa.BasicBlock) string {
 					}
 					continue
 				}
+				if w.inline != nil {
+					if callee := cc.StaticCallee(); callee != nil && len(callee.Blocks) > 0 && w.depth < 4 && w.inline(callee) {
+						if _, isCall := x.(*ssa.Call); isCall {
+							end := w.inlineCall(x.(*ssa.Call), callee)
+							switch end {
+							case "return":
+								continue
+							case "panic":
+								return "panic"
+							default:
+								return "undecided"
+							}
+						}
+					}
+				}
 				if w.onCall != nil {
 					if t := w.onCall(w, x); t != "" {
 						w.events = append(w.events, t)
+					}
+				}
+			case *ssa.Extract:
+				if rs, ok := w.tuple[x.Tuple]; ok && x.Index < len(rs) {
+					if rs[x.Index].ok {
+						w.env.bind(x, rs[x.Index].n)
+					}
+					if w.onExtract != nil {
+						w.onExtract(w, x)
 					}
 				}
 			case *ssa.Return:
